@@ -120,7 +120,7 @@ MAIN_CXX = r"""
 static yy_buffer_state *h[MAXB];
 static int stack[256]; static int sp = 0;
 static int g_autopop; static int g_incmode; static int inc[MAXB]; static int ninc = 0;
-static std::ifstream *fs[MAXB];
+static std::ifstream *fs[MAXB]; static std::ifstream *freed[4 * MAXB]; static int nfree = 0;
 /* the class of the scanner: yywrap() is a virtual member (the user supplies the base version), overridden here */
 int yyFlexLexer::yywrap() { return 1; }
 struct BL : public yyFlexLexer {
@@ -152,20 +152,27 @@ int main(int argc, char **argv)
     memset(h, 0, sizeof h); memset(fs, 0, sizeof fs);
     if (!ops) return 2;
     while (fscanf(ops, "%7s", op) == 1) {
-        if (op[0] == 'C') { int size; fscanf(ops, "%d %511s %d", &id, path, &size); fs[id] = new std::ifstream(path, std::ios::binary); if (!*fs[id]) return 2;
+        if (op[0] == 'C') { int size; fscanf(ops, "%d %511s %d", &id, path, &size);
+            /* every other time the stream object of a buffer that was deleted is opened again on the new file */
+            if (nfree > 0 && (id % 2) == 0) { fs[id] = freed[--nfree]; fs[id]->close(); fs[id]->open(path, std::ios::binary); }
+            else fs[id] = new std::ifstream(path, std::ios::binary);
+            if (!*fs[id]) return 2;
             /* a stream pointer and a stream reference, in turn */
             if (id % 2) h[id] = l->yy_create_buffer(fs[id], size); else h[id] = l->yy_create_buffer(*fs[id], size); }
         else if (op[0] == 'W') { fscanf(ops, "%d", &id); l->yy_switch_to_buffer(h[id]); if (sp == 0) sp = 1; stack[sp - 1] = id; }
         else if (op[0] == 'I') { fscanf(ops, "%d", &id); inc[ninc++] = id; l->yy_switch_to_buffer(h[id]); if (sp == 0) sp = 1; stack[sp - 1] = id; }
         else if (op[0] == 'P') { fscanf(ops, "%d", &id); l->yypush_buffer_state(h[id]); if (sp > 0 && stack[sp - 1] < 0) stack[sp - 1] = id; else stack[sp++] = id; }
-        else if (op[0] == 'O') { if (sp > 0) { int top = stack[sp - 1]; if (top >= 0) h[top] = 0; sp--; } l->yypop_buffer_state(); }
+        else if (op[0] == 'O') { int top = -1; if (sp > 0) { top = stack[sp - 1]; if (top >= 0) h[top] = 0; sp--; } l->yypop_buffer_state();
+            if (top >= 0 && fs[top]) { freed[nfree++] = fs[top]; fs[top] = 0; } }
         else if (op[0] == 'F') { fscanf(ops, "%d", &id); l->flush(h[id]); }
-        else if (op[0] == 'D') { fscanf(ops, "%d", &id); l->yy_delete_buffer(h[id]); h[id] = 0; if (sp > 0 && stack[sp - 1] == id) stack[sp - 1] = -1; }
+        else if (op[0] == 'D') { fscanf(ops, "%d", &id); l->yy_delete_buffer(h[id]); h[id] = 0; if (sp > 0 && stack[sp - 1] == id) stack[sp - 1] = -1;
+            if (fs[id]) { freed[nfree++] = fs[id]; fs[id] = 0; } }
         else if (op[0] == 'X') {
             for (i = 0; i < MAXB; i++) { int j, onstack = 0; for (j = 0; j < sp; j++) if (stack[j] == i) onstack = 1;
                 if (h[i] && !onstack) { l->yy_delete_buffer(h[i]); } h[i] = 0; }
             sp = 0; ninc = 0; delete l; l = new BL(&devnull);
             for (i = 0; i < MAXB; i++) { if (fs[i]) delete fs[i]; fs[i] = 0; }
+            while (nfree > 0) delete freed[--nfree];
             printf("X\n"); }
         else if (op[0] == 'L' || op[0] == 'K' || op[0] == 'M') { fscanf(ops, "%d", &k); g_autopop = (op[0] == 'K'); g_incmode = (op[0] == 'M');
             for (i = 0; i < k; i++) { g_cur = sp > 0 ? stack[sp - 1] : -1; v = l->yylex(); if (v == 0) { printf("Z %d\n", g_cur); break; } } }
@@ -363,6 +370,20 @@ def gen_tower(rng, prog, height):
     for i in range(height - 1):
         ops.append(('O',))
         ops.append(('L', rng.pick([1, 2, 50])))
+    return ops, files
+
+
+def gen_reopen_history(rng, prog, n):
+    """One source after the other, each scanned to its end, its buffer deleted, the next buffer created (for the C++ class: over
+    the very stream object that has just reached its end of file, opened again on the next file) and switched to."""
+    import rulesets
+    files, ops = [], []
+    for i in range(n):
+        files.append(rulesets.gen_inputs(prog, rng.fork("r%d" % i), count=1, maxlen=rng.pick([8, 20, 40]))[0])
+        ops.append(('C', 2 * i, i, 16384))
+        ops.append(('W', 2 * i))
+        ops.append(('L', 400))
+        ops.append(('D', 2 * i))
     return ops, files
 
 
